@@ -6,8 +6,8 @@ PROP = dict(
                  timeout=dict(quick=600, thorough=3000)),
         ],
         rule="case = (prepared state in {vaults+borrows liquidatable, V2 auctions running / expired, V1 auctions running / expired, "
-             "liquidity batch executed}, environment fault in {none, inactive / zero / 2^64-1 prices, drained module accounts, deleted "
-             "params, vault counter +1 / +random / -1, liquidity batch size 0}) with all 13 block hooks called directly, or (hook, state) "
+             "liquidity batch executed}, environment fault in {none, inactive / zero / 2^64-1 prices, drained module accounts, "
+             "vault counter +1 / +random / -1, liquidity batch size 0}) with all 13 block hooks called directly, or (hook, state) "
              "with a failure injected at store-gas consumption k of the hook run (quick: first / last / every 7th k of every "
              "ApplyFuncIfNoError instance and of every unwrapped unit; thorough: every k); non-trivial = the hook changed state "
              "(env case) or performed store accesses (crash case); distinct by (kind, state, fault / hook)",
@@ -15,7 +15,9 @@ PROP = dict(
                   "error control flow of unwrapped code is not part of the table (conditionals are flattened)",
                   "reads, single store writes and bandoracle.FetchPrice outside wraps are taken as total (JStoreWrite / JBand)",
                   "the V2 surplus / debt trigger (kf_C15_3) is decided on the table only: the harness state has no collector lookup entry"],
-        assumptions=["failures are injected as panics at store accesses (out-of-gas at access k) and as environment faults; "
+        assumptions=["every module's parameters are present in the parameter store (written by InitGenesis, also for modules added by an "
+                     "upgrade; no message deletes them) - GetParams in the unwrapped prologue of the sweeps is total under it",
+                     "failures are injected as panics at store accesses (out-of-gas at access k) and as environment faults; "
                      "out-of-memory, stack overflow and fatal errors are outside every model",
                      "hooks are called directly with the keepers of a fresh app (the V1 liquidation / auction hooks are not wired into "
                      "AppModule.BeginBlock on this tree; Example c15_wiring)"],
@@ -30,8 +32,7 @@ MANIFEST = dict(
                "(GetSliceStartEndForLiquidations + reset + slice expression, int64 wrap included) is proved in range when counter <= capacity "
                "and offset+batch does not overflow. The V2 borrow sweep, formerly not wrapped per item (C15-F1), is wrapped after fix C09-F3 and "
                "its unit is now part of the proved table theorem and of the crash-point runs. Refuted with witnesses and listed as known findings: "
-               "counter > capacity and offset+batch overflow make the unwrapped slice expression panic, missing liquidation params panic in the "
-               "unwrapped prologue, window size 1 (C17). Tied to /repo by the regenerated table and by crash-point enumeration on the real hooks.",
+               "counter > capacity and offset+batch overflow make the unwrapped slice expression panic. Tied to /repo by the regenerated table and by crash-point enumeration on the real hooks.",
     design_ref="DESIGN.md section 4 C15",
     level_note="c15_units_wrapped_partial and c15_unwrapped_total_partial are partial: class kf_C15_3 (V2 surplus/debt "
                "trigger, table only) is excluded; reads / single store writes / ibc send outside wraps are modelled as total. No axioms.",
